@@ -118,6 +118,26 @@ Proof.
   - constructor; [exact H1 | apply IH; assumption].
 Qed.
 
+Lemma zlookup_in {A} (l : list (Z * A)) k v : zlookup l k = Some v -> In (k, v) l.
+Proof.
+  induction l as [|[k0 a] l IH]; cbn [zlookup]; [discriminate|].
+  destruct (Z.eqb k k0) eqn:E; intros H.
+  - apply Z.eqb_eq in E; subst k0. injection H as ->. left. reflexivity.
+  - right. exact (IH H).
+Qed.
+
+Lemma lookup_nodup_in {A} (row : list (string * A)) k q :
+  NoDup (map fst row) -> In (k, q) row -> lookup row k = Some q.
+Proof.
+  induction row as [|[k0 q0] row IH]; intros Hnd Hin; [destruct Hin|].
+  cbn [lookup]. cbn [map fst] in Hnd. inversion Hnd as [|? ? Hnin Hnd']; subst.
+  destruct Hin as [Hin|Hin].
+  - injection Hin as -> ->. rewrite String.eqb_refl. reflexivity.
+  - destruct (String.eqb k k0) eqn:E; [|exact (IH Hnd' Hin)].
+    apply String.eqb_eq in E; subst k0. exfalso. apply Hnin.
+    change k with (fst (k, q)). apply in_map. exact Hin.
+Qed.
+
 Lemma nodup_snoc {A} (l : list A) x : NoDup l -> ~ In x l -> NoDup (l ++ [x]).
 Proof.
   induction l as [|y l IH]; cbn [List.app]; intros Hnd Hnin.
@@ -269,6 +289,15 @@ Proof.
                                       right; exact (IHl Hg)]. }
   destruct (Hrows _ Hin') as (_ & H2 & _). cbn [fst snd] in H2. rewrite Forall_forall in H2.
   exact (H2 _ Hin).
+Qed.
+
+Lemma load_row_member_shown (calls : list call) date row k q :
+  get_quotes (load calls) date = Some row -> In (k, q) row -> shown (load calls) date k = Some q.
+Proof.
+  intros Hg Hin. unfold shown. rewrite Hg.
+  destruct (load_inv calls) as (_ & _ & Hrows). rewrite Forall_forall in Hrows.
+  destruct (Hrows _ (zlookup_in _ _ _ Hg)) as (Hnd & _ & _). cbn [snd] in Hnd.
+  apply lookup_nodup_in; assumption.
 Qed.
 
 (* a date has a row exactly when it is one of the dataset's dates (so a tick never meets a missing row) *)
